@@ -1,14 +1,14 @@
 (* Model/C09Check.v -- tactic used by the generated correspondence goals of C09: the generated interval definitions are
-   unfolded down to real arithmetic on the literal arguments (list structure computed by cbn) and enclosed by `interval`. *)
+   evaluated (call by value, list structure only -- real arithmetic is left untouched) down to real arithmetic on the
+   literal arguments and enclosed by `interval`. *)
 From Coq Require Import Reals Lra List.
 From Interval Require Import Tactic.
 From PG Require Import Base.Ops Model.Intervals Gen.Links Gen.Intervals.
 Import ListNotations.
 Open Scope R_scope.
 Ltac c09 :=
-  unfold Gen_bound, Gen_xform, Gen_line, Gen_zq, Gen_var, Gen_cov_block, Gen_lp,
-         Gen_flags_confidence_intervals, Gen_flags_prediction_intervals, Gen_flags_partial_dependence,
-         Gen_IdentityLink_mu, Gen_LogLink_mu, Gen_LogitLink_mu, rowquad, dotl, select, block, entry;
-  cbv zeta;
-  cbn [lsum seq length nth map qf_prediction qf_xform qf_term Nat.add];
-  interval with (i_prec 120).
+  cbv beta iota zeta delta [Gen_bound Gen_xform Gen_line Gen_zq Gen_var Gen_cov_block Gen_lp
+         Gen_flags_confidence_intervals Gen_flags_prediction_intervals Gen_flags_partial_dependence
+         Gen_IdentityLink_mu Gen_LogLink_mu Gen_LogitLink_mu rowquad dotl select block entry
+         lsum seq length nth map qf_prediction qf_xform qf_term Nat.add];
+  interval with (i_prec 100).
